@@ -1,6 +1,7 @@
 package chn
 
 import (
+	"os"
 	"context"
 	"fmt"
 	"strings"
@@ -214,6 +215,9 @@ func RunC07(st *simcore.Stream, tier, leg string, logOn bool, res *simcore.Resul
 		case "send-stuck-after-heal", "too-many-handshakes", "send-failed-on-reliable-network", "sent-but-not-delivered":
 			keep = append(keep, v)
 		default:
+			if os.Getenv("SIM_KEEP_ALL") != "" { // development aid: see the other properties' events with their replay
+				keep = append(keep, v)
+			}
 			res.Probe("other-property-violation-seen:" + v.Class)
 		}
 	}
